@@ -48,7 +48,7 @@ func isAttrValueEmptyCmp(a Atom) (isEmptyTest bool) {
 }
 
 func isURLClassCall(a Atom) bool {
-	return a.E.Op == "call" && a.E.Fn != nil && a.E.Fn.Name() == "isURLorTrustedResourceURL"
+	return a.E.Op == "call" && a.E.Fn != nil && cname(a.E.Fn) == "isURLorTrustedResourceURL"
 }
 
 func isAmbiguousField(a Atom) bool {
@@ -279,7 +279,7 @@ func isSanitizerNameOfSC(v ssa.Value) bool {
 		return false
 	}
 	f := staticCallee(c.Common())
-	return f != nil && f.Name() == "sanitizerName"
+	return f != nil && cname(f) == "sanitizerName"
 }
 
 // scSetOfPredicate evaluates a method "func (s sanitizationContext) p() bool"
